@@ -6,7 +6,8 @@
 (* optima so that the real code can be run on it (spec -> code).             *)
 EXTENDS Align, Json, Randomization, SequencesExt
 
-CONSTANTS NA, MaxU, DVals, DE, Variant, EmitInstances, Sample   \* Sample = 0: all instances, else that many random ones
+CONSTANTS NA, MaxU, DVals, DE, Variant, EmitInstances, Sample,  \* Sample = 0: all instances, else that many random ones
+          CheckInvariance   \* TRUE: also solve the annotator-reversed and the doubled instance (C09)
 
 VARIABLES inst, phase, result
 avars == <<inst, phase, result>>
@@ -38,6 +39,20 @@ Solve ==
     /\ inst' = inst
     /\ EmitInstances => PrintT(ToJson([inst |-> inst, result |-> result',
                                        cands |-> SetToSeq({<<t, SumCost(inst, t)>> : t \in Cands(inst, Variant)})]))
+
+\* the same problem with the annotators listed in reverse order / with every dissimilarity and delta_empty doubled
+Rev(I) == [n |-> I.n, de |-> I.de,
+           sizes |-> [a \in Ann(I) |-> I.sizes[I.n + 1 - a]],
+           D |-> [a \in Ann(I) |-> [b \in Ann(I) |->
+                    IF a < b THEN [i \in 1..I.sizes[I.n + 1 - a] |-> [j \in 1..I.sizes[I.n + 1 - b] |->
+                                      I.D[I.n + 1 - b][I.n + 1 - a][j][i]]]
+                    ELSE <<>>]]]
+Twice(I) == [n |-> I.n, de |-> 2 * I.de, sizes |-> I.sizes,
+             D |-> [a \in Ann(I) |-> [b \in Ann(I) |->
+                      IF a < b THEN [i \in 1..I.sizes[a] |-> [j \in 1..I.sizes[b] |-> 2 * I.D[a][b][i][j]]] ELSE <<>>]]]
+OptPart(I) == MinPart(I, AllUnits(I), Cands(I, "none"))
+PermInvariant == (CheckInvariance /\ phase = "done") => OptPart(Rev(inst)) = result.pruned      \* renaming / permuting annotators
+DeltaEmptyLinear == (CheckInvariance /\ phase = "done") => OptPart(Twice(inst)) = 2 * result.pruned   \* delta_empty * c everywhere
 
 Next == Solve
 Spec == Init /\ [][Next]_avars
